@@ -42,6 +42,9 @@ pub enum BEv {
     /// retain_all_current_data at this point: everything allocated so far — values the host holds, results,
     /// and, in the middle of a run, the stack entries themselves — becomes part of the retained prefix
     RetainAll,
+    /// the host assembles a list front to back: start_list first, then the items are created, added, end_list —
+    /// the list's slots lie *before* the values they name
+    HostAddForward(Vec<Val>),
     /// set_data_retention_count to the data length the host noted after one of its own earlier allocations
     /// (only ever raising the count): a retention point that is not "everything so far"
     RetainMark(usize),
@@ -204,6 +207,9 @@ impl Campaign for C19 {
             if rng.chance(1, 10) {
                 evs.push(BEv::HostAdd(random_value(rng, 2)));
             }
+            if rng.chance(1, 30) {
+                evs.push(BEv::HostAddForward((0..rng.range(1, 4)).map(|_| random_value(rng, 0)).collect()));
+            }
             if rng.chance(1, 10) {
                 evs.push(BEv::CloneHeld(rng.below(6)));
             }
@@ -247,7 +253,8 @@ impl Campaign for C19 {
         let mut pre = vec![];
         if rng.chance(1, 3) {
             for _ in 0..rng.range(1, 4) {
-                match rng.below(6) {
+                match rng.below(7) {
+                    6 => pre.push(BEv::HostAddForward((0..rng.range(1, 4)).map(|_| random_value(rng, 0)).collect())),
                     5 => pre.push(if rng.chance(1, 2) { BEv::RetainAll } else { BEv::RetainMark(rng.below(8)) }),
                     0 => pre.push(BEv::HostAdd(random_value(rng, 2))),
                     1 => pre.push(BEv::HostSymbol(format!("hs{}", rng.below(40)))),
@@ -404,7 +411,7 @@ impl Campaign for C19 {
                 s.push_str(match e {
                     BEv::Optimize(_) => " optimize",
                     BEv::CloneHeld(_) | BEv::CloneStack(_) => " clone_data",
-                    BEv::HostAdd(_) => " host_add",
+                    BEv::HostAdd(_) | BEv::HostAddForward(_) => " host_add",
                     BEv::HostShare(_) => " host_share",
                     BEv::HostSymbol(_) => " host_symbol",
                     BEv::RetainAll => " retain_all",
@@ -597,6 +604,35 @@ pub fn execute(sc: &Sc19) -> Outcome {
                         Err(_) => {
                             out.count("f1_store_full_fired", 1);
                             out.probe("store-full-in-host-add");
+                            break 'run;
+                        }
+                    }
+                }
+                BEv::HostAddForward(items) => {
+                    sh.str("add-forward");
+                    let r: Result<usize, garnish_lang_simple_data::DataError> = (|| {
+                        let mut l = a.start_list(items.len())?;
+                        for it in &items {
+                            let addr = materialise(&mut a, it)?;
+                            l = a.add_to_list(l, addr)?;
+                        }
+                        a.end_list(l)
+                    })();
+                    match r {
+                        Ok(addr) => {
+                            let v = Val::List(items.clone());
+                            let got = read_val(&a, addr);
+                            if got != v {
+                                out.violate("C19.harness.host-add-readback", format!("wrote {} read {}", v.short(), got.short()));
+                                break 'run;
+                            }
+                            held.push((addr, v));
+                            out.count("host_add", 1);
+                            out.probe("host-list-assembled-front-to-back");
+                            marks.push(a.get_data_len());
+                        }
+                        Err(_) => {
+                            out.count("f1_store_full_fired", 1);
                             break 'run;
                         }
                     }
@@ -847,8 +883,11 @@ pub fn execute(sc: &Sc19) -> Outcome {
                             } else if msg.contains("Clone limit") {
                                 out.probe("optimize-refused-clone-limit");
                             } else {
+                                // not a capacity matter: compaction's own bookkeeping gave up on a store that was built through
+                                // the public interface only
                                 out.count("optimize_err_other", 1);
-                                out.probe(&format!("optimize-err:{}", crate::world::short_err(&msg.chars().filter(|c| !c.is_ascii_digit()).collect::<String>())));
+                                out.violate("C19.optimize.refused-without-capacity-reason", crate::world::short_err(&msg));
+                                break 'run;
                             }
                             // a refused compaction gives no verdict for this call and ends the run
                             break 'run;
